@@ -208,6 +208,7 @@ class Exec(object):
         if name not in reg:
             ps = z3.Function('psum!' + name, z3.IntSort(), z3.IntSort())
             reg[name] = ps
+            self.ghost.setdefault('ps_f', {})[name] = f
             self.fact(ps(0) == 0)
             for zi_ in list(self.ghost.get('at_idx', {}).get(name, {}).values()):
                 self.fact(ps(zi_ + 1) == ps(zi_) + f(zi_))
@@ -280,6 +281,12 @@ class Exec(object):
                 self.solver.push()
                 for t in self.len_terms:
                     self.solver.add(t <= bound)
+                # make uninterpreted prefix sums exact on the bounded range, so
+                # that the model is a real byte string
+                for nm, ps in self.ghost.get('ps', {}).items():
+                    f = self.ghost['ps_f'][nm]
+                    for i in range(bound + 2):
+                        self.solver.add(ps(i + 1) == ps(i) + f(i), f(i) >= 0, f(i) <= 255)
                 r2 = self.solver.check()
                 if r2 == z3.sat:
                     m = self.solver.model()
@@ -375,6 +382,9 @@ class Exec(object):
     # ------------------------------------------------------------ obligations
     def oblige(self, name, goal, detail=None, where=None):
         t0 = time.time()
+        pre = getattr(self, 'ob_prefix', None)
+        if pre and not name.startswith(pre):
+            name = pre + '/' + name
         self.cur_obligation = name
         if self.pos < self.prefix_len:
             # replaying a prefix: this obligation was checked by the path that
